@@ -105,6 +105,21 @@ let () =
            | None -> Buffer.add_string b " STACK-OVERFLOW")
         done;
         print_endline (Buffer.contents b)
+      end else if toks.(0) = "BT" then begin
+        (* BT <id> sel sc tr (x3 rows) <6 ints per box ...>: Box::Transform of every box by the model's btransform *)
+        let id = toks.(1) in
+        let a = Array.map int_of_string (Array.sub toks 2 (Array.length toks - 2)) in
+        let row o = { sel = z_of_int a.(o); sc = z_of_int a.(o+1); tr = z_of_int a.(o+2) } in
+        let t = { rx = row 0; ry = row 3; rz = row 6 } in
+        let nb = (Array.length a - 9) / 6 in
+        let b = Buffer.create 256 in
+        Buffer.add_string b ("T " ^ id);
+        for i = 0 to nb - 1 do
+          let r = btransform t (mkbox a (9 + 6 * i)) in
+          Buffer.add_string b (Printf.sprintf " %d %d %d %d %d %d" (int_of_z r.bminx) (int_of_z r.bminy) (int_of_z r.bminz)
+                                 (int_of_z r.bmaxx) (int_of_z r.bmaxy) (int_of_z r.bmaxz))
+        done;
+        print_endline (Buffer.contents b)
       end else if toks.(0) = "CERT" then begin
         let id = toks.(1) in
         let n = int_of_string toks.(2) in
